@@ -45,7 +45,8 @@ SELF_REFERENTIAL = {'l2', 'indl2', 'linf', 'indl1', 'kl', 'klcc', 'klce', 'klcec
 
 
 def EXPECTED_BRANCHES(ctx=None):
-    return fc.history_expected_branches() + fc.wide_expected_branches('C08')
+    return (fc.history_expected_branches() + fc.wide_expected_branches('C08') +
+            fc.forms_expected_branches())
 
 # --------------------------------------------------------------------------
 
@@ -491,6 +492,7 @@ def run(ctx, deep=False):
                        n_pts=2 if quick else 3)
     fc.history_stream(ctx, 'C08', 12 if quick else 60)
     fc.wide_stream(ctx, 'C08', 2 if quick else 8)
+    fc.forms_stream(ctx, 'C08')
     outs = core.run_driver('C08', lines)
     compare(ctx, pend, outs)
     ctx.extra['model_lines'] = len(lines)
@@ -512,6 +514,8 @@ def replay(ctx, case):
         return fc.history_replay(case)
     if case.get('wide'):
         return fc.wide_replay(case)
+    if case.get('forms'):
+        return fc.forms_replay(ctx, case)
     S = fc.get_space(case['space'])
     r = case['recipe']
     st, f = safe_call(fc.build, r, S, True)
